@@ -596,7 +596,11 @@ def run_nls_sequence(ck, rng, S, dn, seq_key, L):
             pending = None
             x, u = rv(S.n), rv(S.m)
             t = int(rng.integers(0, 25))
-            targ, tk = t_tensor(rng, t, dtype)
+            if rng.random() < 0.3:       # a reference time between steps (k*dt, as continuous-time users pass): exact in binary
+                t = float(rng.integers(0, 200)) / 8.0
+                targ, tk = torch.tensor(t, dtype=dtype), "t:fractional"
+            else:
+                targ, tk = t_tensor(rng, t, dtype)
             okc, _ = ck.call("nls_jacobian", f"explicit/{tk}", "NLS.set_refpoint", lambda: s.set_refpoint(state=x, input=u, t=targ))
             auto.keep()
             after_event(ck, s, auto, "NLS", "set_refpoint(x,u,t)", seq_key, step)
@@ -713,7 +717,7 @@ def run(ck):
     ck.require("NLS/explicit-refpoint", "NLS/default-refpoint", "NLS/partial-refpoint", "NLS/read-after-further-calls",
                "NLS/default-refpoint/read-after-further-calls",
                "NLS/batch-of-one", "NLS/f64", "NLS/f32", "NLS/system/tree", "NLS/system/affine", "NLS/system/mild",
-               "NLS/refpoint/t:int0d", "NLS/refpoint/t:float0d", "NLS/refpoint/t:int1d")
+               "NLS/refpoint/t:int0d", "NLS/refpoint/t:float0d", "NLS/refpoint/t:int1d", "NLS/refpoint/t:fractional")
     ck.floor("contract_call_plus_one", 1500)
     ck.floor("systime_automaton", 2500)
     ck.floor("lti_equations", 2000)
